@@ -44,6 +44,7 @@ class SimFS:
         self.diskfull_at = None  # op index of the write at which the disk becomes full
         self.diskfull_frac = 0.5  # fraction of that write which still fits (a *short write*, no error yet)
         self.full = False  # once full, every further write raises ENOSPC (create / rename / unlink still work)
+        self.epoch = 0  # incremented per simulated process: file objects of a dead process cannot write anymore
         self.on_op = None  # callback(index, op) before the op is applied (markers, SIGINT delivery)
         self.record = True
         self.bytes_written = 0
@@ -173,6 +174,7 @@ class SimRawFile(io.RawIOBase):
                 raise FileNotFoundError(errno.ENOENT, 'No such file (simfs)', path)
         # the open file keeps referring to its inode even if the name is renamed: track by object
         self._buf = fs.files.get(path)
+        self._epoch = fs.epoch
         self.name = path
         self.mode = mode
         # whether a short write may be reported to the caller: yes for files opened through open()/gzip (the
@@ -212,6 +214,8 @@ class SimRawFile(io.RawIOBase):
         data = bytes(b)
         if not data:
             return 0
+        if self._epoch != self.fs.epoch:
+            return len(data)  # a left-over file object of an earlier (dead) simulated process, e.g. flushed by the GC
         if 'a' in self._mode and self._buf is not None:
             self._pos = len(self._buf)
         n = self.fs._mutate(('write', self._current_path(), self._pos, data), short_ok=self.short_ok)
@@ -235,7 +239,8 @@ class SimRawFile(io.RawIOBase):
     def truncate(self, size=None):
         if size is None:
             size = self._pos
-        self.fs._mutate(('truncate', self._current_path(), size))
+        if self._epoch == self.fs.epoch:
+            self.fs._mutate(('truncate', self._current_path(), size))
         return size
 
     def flush(self):
@@ -244,7 +249,7 @@ class SimRawFile(io.RawIOBase):
     def close(self):
         if not self.closed:
             try:
-                if self._writable:
+                if self._writable and self._epoch == self.fs.epoch:
                     self.fs._mutate(('close', self._current_path()))
             finally:
                 super().close()
